@@ -7,7 +7,7 @@ from .. import oracles as O
 from ..cfg import typestate
 from ..fold import Scope, StructVal, dotted, src
 from ..loader import AnalysisError
-from .common import (attr_stores, ctx, ff_for, find_calls, inside_with, must_pass, node_calls, own_nodes, path_text)
+from .common import (attr_stores, ctx, ff_for, find_calls, inside_with, must_pass, node_calls, own_nodes, path_text, reject_probes)
 
 EM = "canopen/emcy.py"
 
@@ -68,6 +68,13 @@ def run(chk):
     for name, first in (("send", "code"), ("reset", "0")):
         p = repo.func(EM, f"EmcyProducer.{name}", "C16.R1")
         pf = ff_for(chk, p, "C16.R1")
+        # every code 0..0xFFFF, register 0..0xFF and 0..5 data bytes is sent: validation refuses none of them
+        prm = [a_ for a_ in p.params if a_ != "self"]
+        doms = {"code": (0, 0x1000, 0xFFFF), "register": (0, 1, 0xFF), "data": (b"", b"\x01", b"\x01\x02\x03\x04\x05")}
+        if all(a_ in doms for a_ in prm):
+            import itertools
+            reject_probes(chk, "R1", p, [dict(zip(prm, combo)) for combo in itertools.product(*[doms[a_] for a_ in prm])],
+                          "every 16-bit code, 8-bit register and 0..5 data bytes")
         packs = find_calls(p.node, ".pack")
         if not packs:
             # delegated to a helper of the class: follow it one level
